@@ -42,8 +42,9 @@ fn gen_index(rng: &mut Rng, limit: i64) -> Option<i64> {
     match rng.below(20) {
         0..=9 => None,
         10..=16 => Some(rng.range(0, limit.max(1) + 1)),
-        17 => Some(*rng.pick(&[-1, -2, -2147483648])),
-        18 => Some(*rng.pick(&[65535, 65536, 70000, 2147483647])),
+        // boundaries of the index limit and of the 32-/64-bit conversions on the way (values beyond i32 must not wrap)
+        17 => Some(*rng.pick(&[-1, -2, -2147483648, -2147483649, -4294967295, -4294967297])),
+        18 => Some(*rng.pick(&[65535, 65536, 70000, 2147483647, 2147483648, 4294967295, 4294967296, 4294967297, 4294967298, 9223372036854775807])),
         _ => Some(rng.range(0, 9)),
     }
 }
@@ -96,7 +97,7 @@ impl Stream for C12 {
                 match rng.below(12) {
                     0..=1 => None,
                     2..=9 => Some(rng.range(1, 5)),
-                    10 => Some(*rng.pick(&[0, -1, 65536, 65537, 1])),
+                    10 => Some(*rng.pick(&[0, -1, 65536, 65537, 1, 4294967297, 4294967298, 2147483648, -4294967295])),
                     _ => Some(rng.range(1, 3)),
                 }
             };
